@@ -271,6 +271,31 @@ def far_waiter_stream(rng, pid):
     return out
 
 
+def dropwait_stream(rng, pid):
+    """a destructor that *blocks* on another thread: the wrapped iterator panics inside a buffered / one-shot chunk pull after some
+    elements were taken; the destructor of the first of them waits until the other thread -- which is queued behind the pull -- has
+    finished. Nothing the machinery destroys while it holds the turn may depend on a waiter (implementation only)"""
+    out = []
+    i = 0
+    for L in (5, 7):
+        for k in (1, 2, 3):
+            # (buffered pulls only: a one-shot `next_chunk` collects into a local `Vec`, which unwinding destroys before the guard
+            # stores `completed` -- on the pinned crate too; see DESIGN §11, re-entrancy)
+            for first in (["bufnew 4", "bufnext all"], ["bufnew 3", "bufnext 1"]):
+                for second in (["next", "next"], ["chunk 2 all"], ["bufnew 2", "bufnext all"]):
+                    vals = distinct_vals(rng, L)
+                    c = Case("%s-dw%d" % (pid, i), "iter", script=["S%d" % v for v in vals[:k]] + ["P"] + ["S%d" % v for v in vals[k:]], hint=rng.choice(["exact", "inexact"]))
+                    c.threads = [list(first) + ["next"], list(second)]
+                    c.dropwait = (vals[0], 1)
+                    # thread 0 reserves and enters the wrapped iterator, thread 1 reserves and waits, then thread 0 goes on to the panic
+                    c.sched = [0] * (7 if first[0].startswith("bufnew") else 6) + [1] * (6 if second[0].startswith("bufnew") else 5) + [0] * 60
+                    c.owner = "drop"
+                    c.tags = {"implonly", "nomodel"}
+                    out.append(c)
+                    i += 1
+    return out
+
+
 def closure_pull_stream(rng, pid):
     """the function given to `for_each` / `enumerate_for_each` itself pulls one more element from the same iterator after each
     call (and processes it): re-entrancy from user code that runs *outside* the turn. Implementation only"""
@@ -1232,7 +1257,7 @@ def stream_for0(pid, tier, seed):
                     if op.split()[0] in ("foreach", "enumforeach") and rng.random() < 0.5:
                         t[j] = op + " panic=%d" % rng.randint(0, 4)
             cases.append(c)
-        cases += droppanic_stream(rng, tier, pid) + wrapper_droppanic_stream(rng, pid) + inpanic_stream(rng, pid) + hintpanic_stream(rng, pid) + far_waiter_stream(rng, pid)
+        cases += droppanic_stream(rng, tier, pid) + wrapper_droppanic_stream(rng, pid) + inpanic_stream(rng, pid) + hintpanic_stream(rng, pid) + far_waiter_stream(rng, pid) + dropwait_stream(rng, pid)
         return cases
     if pid == "C19":
         # sources and chunks longer than u32::MAX: a clone taken after such a chunk starts where the original stands
